@@ -8,9 +8,9 @@ import (
 	"github.com/orda-io/orda/client/pkg/internal/datatypes"
 	"github.com/orda-io/orda/client/pkg/model"
 	"github.com/orda-io/orda/client/pkg/operations"
+	"github.com/orda-io/orda/client/pkg/types"
 	"github.com/orda-io/orda/client/pkg/utils"
 	"github.com/wI2L/jsondiff"
-	"reflect"
 	"strconv"
 	"strings"
 )
@@ -450,10 +450,8 @@ func (its *document) toDocument(child jsonType) Document {
 // hasNullValue tells if any of values is nil or a nil pointer, which cannot be stored in a Document.
 func hasNullValue(values ...interface{}) bool {
 	for _, v := range values {
-		if v == nil {
-			return true
-		}
-		if rv := reflect.ValueOf(v); rv.Kind() == reflect.Ptr && rv.IsNil() {
+		// nil, and nil pointers, slices and maps: all of them encode to JSON null
+		if types.IsNil(v) {
 			return true
 		}
 	}
